@@ -561,6 +561,22 @@ def sint(x=0, *a):
     return builtins.int(x, *a)
 
 
+class _IntMeta(type):
+    def __instancecheck__(cls, obj):
+        return isinstance(obj, builtins.int)
+
+    def __subclasscheck__(cls, sub):
+        return issubclass(sub, builtins.int)
+
+
+class IntShim(builtins.int, metaclass=_IntMeta):
+    """replacement for the name `int` inside modules under test: int(x) is the identity on proxies, while isinstance(x, int),
+    issubclass and numpy dtype arguments keep working"""
+
+    def __new__(cls, x=0, *a):
+        return sint(x, *a)
+
+
 def sbool(x=False):
     if isinstance(x, SBool):
         return x
@@ -685,7 +701,7 @@ def shims(*pairs):
                 mod.__dict__[k] = old
 
 
-BASIC = {"min": smin, "max": smax, "int": sint, "abs": sabs, "sum": ssum}
+BASIC = {"min": smin, "max": smax, "int": IntShim, "abs": sabs, "sum": ssum}
 
 
 # ------------------------------------------------------------------------------------------------ providers
